@@ -16,6 +16,7 @@ RULE = ("G-int: per rank 1-40 device activities on 1-4 streams with start/end dr
         "activities that overlap or touch. Distinct = hash of the files.")
 ASSUMPTIONS = ["kernel_time > 0 (a rank whose activities all have zero length at one instant divides by zero: out of regime)",
                "device activity = complete event whose stream is not -1; type by the documented name rules (hv/ref/intervals.py)"]
+FLOAT_KEYS = ["files"]          # fractional-time-unit workload class (hv/shard.py)
 PLAN = {"quick": {"shards": 16, "cases": 960, "timeout": 600}, "thorough": {"shards": 16, "cases": 10000, "timeout": 3000}}
 FLOORS = {"quick": {"distinct_nontrivial": 150, "ranks_judged": 700, "merge_kernel_intervals.post": 1400, "with_touching": 150,
                     "with_identical": 100, "with_zero_length": 100, "with_nested": 150},
